@@ -28,6 +28,15 @@ CLAIMED = {
          "reach the block reader unchanged from a digits-only pattern group. Substantially decides the property given the trusted model of socket.recv.",
     technique="effect ownership (who-may-call / who-may-write) + CFG cycle and exit classification + regex group analysis",
     ref="4/C05"),
+ "C09": dict(
+    text="Q1: path-sensitive constant propagation of each of the Client's reply-consuming functions over code in {OK, NO}: OK reaches only success "
+         "returns, NO only False/None, no explicit raise after a reply; Q2: the status pattern's first group is exactly OK|NO|BYE (regex language "
+         "equality), BYE raises Error, NO passes the error parser before Response, the assembler stops reading on Response; Q3: no capture group "
+         "proved optional is used as bytes without a None test (followed into the error parser); Q4: the RFC 5804 language of NO-reply tails is "
+         "included in what the error parser accepts before it may raise and errcode/errmsg are both set on every path; Q5: only the error parser "
+         "writes errcode/errmsg from server data. Necessary conditions; the suite contains no NO or BYE reply at all.",
+    technique="finite-domain path enumeration + regex language inclusion (DFA) + nullable-group analysis + CFG dominance",
+    ref="4/C09"),
 }
 NA = {}
 
